@@ -19,7 +19,7 @@ Variable conv : ty -> value -> option value.
 Variables bidir always : bool.
 Notation E := (E hatom udiff ops c).
 Notation D := (D hatom udiff ops c conv bidir always).
-Notation GoodD := (GoodD conv bidir).
+Notation GoodD := (GoodD conv bidir always).
 Notation Good := (Good hatom udiff ops c conv bidir always).
 Notation tc_guard := (tc_guard conv bidir always).
 Notation irun := (irun conv bidir).
@@ -30,37 +30,40 @@ Lemma good_single_value T1 T2 t1 t2 q dd :
   wf t1 = true -> wf t2 = true ->
   GoodD (to_delta conv bidir always ops T1 T2 [mkEntry KValue q q (Some t1) (Some t2) dd] []) (length q) t1 t2.
 Proof.
-  intros W1 W2. apply GoodD_inplace; try reflexivity.
+  intros W1 W2. split; [reflexivity|]. intros v Wv Vv _.
+  destruct (veqb_facts v t1 Vv W1) as (_ & _ & PE).
+  apply runs_inplace; try reflexivity.
   - unfold p1, p2, p3, p4, p5. cbn. rewrite skipn_npath_self. cbn.
-    unfold vc_step, current_at, finish. cbn. destruct bidir; cbn; [rewrite (py_eqv_rfl t1 W1)|]; reflexivity.
+    unfold vc_step, current_at, finish. cbn. destruct bidir; cbn; [rewrite PE|]; reflexivity.
   - unfold p1, p2, p3, p4, p5. cbn. rewrite skipn_npath_self. cbn.
-    unfold vc_step, current_at, finish. cbn. destruct bidir; cbn; [rewrite (py_eqv_rfl t1 W1)|]; cbn; apply veqb_refl; exact W2.
+    unfold vc_step, current_at, finish. cbn. destruct bidir; cbn; [rewrite PE|]; cbn; apply veqb_refl; exact W2.
 Qed.
 
 (* ---- one type_changes entry for the node itself ---- *)
 Lemma good_single_type T1 T2 t1 t2 q :
-  wf t1 = true -> wf t2 = true -> tc_guard t1 t2 ->
+  ty_eqb (type_of t1) (type_of t2) = false -> wf t1 = true -> wf t2 = true ->
   GoodD (to_delta conv bidir always ops T1 T2 [mkEntry KType q q (Some t1) (Some t2) None] []) (length q) t1 t2.
 Proof.
-  intros W1 W2 G.
+  intros T W1 W2. split; [reflexivity|]. intros v Wv Vv OB. pose proof (okb_tc conv bidir always v t1 t2 T OB) as G.
+  destruct (veqb_facts v t1 Vv W1) as (_ & _ & PE).
   assert (X : forall s, s = finish (irun (map (istrip (length q))
                (p1 (to_delta conv bidir always ops T1 T2 [mkEntry KType q q (Some t1) (Some t2) None] []) ++
                 p2 (to_delta conv bidir always ops T1 T2 [mkEntry KType q q (Some t1) (Some t2) None] []) ++
                 p3 (to_delta conv bidir always ops T1 T2 [mkEntry KType q q (Some t1) (Some t2) None] []) ++
                 p4 (to_delta conv bidir always ops T1 T2 [mkEntry KType q q (Some t1) (Some t2) None] []) ++
-                p5 (to_delta conv bidir always ops T1 T2 [mkEntry KType q q (Some t1) (Some t2) None] []))) (mkSt t1 [] 0)) ->
+                p5 (to_delta conv bidir always ops T1 T2 [mkEntry KType q q (Some t1) (Some t2) None] []))) (mkSt v [] 0)) ->
              errs s = 0 /\ veqb (root s) t2 = true).
   { intros s ->. unfold p1, p2, p3, p4, p5. cbn. rewrite skipn_npath_self. cbn.
     unfold tc_step, current_at, finish. cbn.
     destruct (bidir || always) eqn:I; cbn.
-    - destruct bidir; cbn; [rewrite (py_eqv_rfl t1 W1)|]; cbn; split; try reflexivity; apply veqb_refl; exact W2.
+    - destruct bidir; cbn; [rewrite PE|]; cbn; split; try reflexivity; apply veqb_refl; exact W2.
     - apply orb_false_iff in I as [-> ->]. cbn.
       destruct (conv (type_of t2) t1) as [a'|] eqn:Cv; cbn.
       + destruct (py_eqv a' t2) eqn:Ev; cbn.
-        * split; [reflexivity|]. destruct G as [G|G]; [discriminate|]. apply G; assumption.
+        * destruct G as [G|G]; [discriminate|]. destruct (G a' Cv Ev) as (v' & Cv' & Vv'). rewrite Cv'. cbn. split; [reflexivity|exact Vv'].
         * split; [reflexivity|apply veqb_refl; exact W2].
       + split; [reflexivity|apply veqb_refl; exact W2]. }
-  apply GoodD_inplace; try reflexivity; apply (X _ eq_refl).
+  apply runs_inplace; try reflexivity; apply (X _ eq_refl).
 Qed.
 
 
@@ -88,28 +91,27 @@ Proof.
 Qed.
 
 (* the delta of an empty entry list does nothing *)
-Lemma good_empty T1 T2 t1 t2 n :
-  veqb t1 t2 = true -> GoodD (to_delta conv bidir always ops T1 T2 [] []) n t1 t2.
+Lemma good_empty T1 T2 t n :
+  GoodD (to_delta conv bidir always ops T1 T2 [] []) n t t.
 Proof.
-  intros V. apply GoodD_inplace; try reflexivity. exact V.
+  split; [reflexivity|]. intros v Wv Vv _. apply runs_inplace; try reflexivity. exact Vv.
 Qed.
 
 Lemma Good_type t1 t2 q :
-  ty_eqb (type_of t1) (type_of t2) = false -> wf t1 = true -> wf t2 = true -> tc_guard t1 t2 -> Good t1 t2 q.
+  ty_eqb (type_of t1) (type_of t2) = false -> wf t1 = true -> wf t2 = true -> Good t1 t2 q.
 Proof.
-  intros T W1 W2 G T1 T2 _ _. unfold DeltaGood.D, DeltaGood.E. rewrite diff_type by (try reflexivity; exact T).
+  intros T W1 W2 T1 T2 _ _. unfold DeltaGood.D, DeltaGood.E. rewrite diff_type by (try reflexivity; exact T).
   cbn [fst snd report nos]. rewrite mutual_single by reflexivity. apply good_single_type; assumption.
 Qed.
 
-Lemma Good_atom a b q :
-  (ty_eqb (atom_ty a) (atom_ty b) = false -> tc_guard (VAtom a) (VAtom b)) -> Good (VAtom a) (VAtom b) q.
+Lemma Good_atom a b q : Good (VAtom a) (VAtom b) q.
 Proof.
-  intros G. destruct (ty_eqb (atom_ty a) (atom_ty b)) eqn:T.
+  destruct (ty_eqb (atom_ty a) (atom_ty b)) eqn:T.
   - intros T1 T2 _ _. unfold DeltaGood.D, DeltaGood.E. rewrite diff_atom_eq by reflexivity. rewrite T. cbn [negb fst snd].
     apply ty_eqb_true in T. destruct (diff_atom_cases a b q T) as [[-> ->]|[d ->]].
-    + cbn [mutual]. apply good_empty. cbn. apply atom_eqb_refl.
+    + cbn [mutual]. apply good_empty.
     + rewrite mutual_single by reflexivity. apply good_single_value; reflexivity.
-  - apply Good_type; try reflexivity; [exact T|apply G; reflexivity].
+  - apply Good_type; try reflexivity. exact T.
 Qed.
 
 End Nodes.
